@@ -22,7 +22,44 @@ STATE: dict = {}
 
 def _reset(plan: list) -> None:
     STATE.clear()
-    STATE.update({"plan": [dict(p) for p in plan], "attempts": [], "dirs": [], "deleted": [], "injected": [], "avail": [], "events": [], "ports_done": {}})
+    STATE.update({"plan": [dict(p) for p in plan], "attempts": [], "dirs": [], "deleted": [], "injected": [], "avail": [], "events": [], "ports_done": {},
+                  "timeline": [], "gate_events": {}, "signalled": set(), "gates": []})
+
+
+_LEGACY = ("exec", "fail", "lose", "stage")
+
+
+def _ev(kind: str, job: str) -> None:
+    """`events`: the kinds the job-step replay of C16/C19 consumes; `timeline`: the same plus start / claim / replica / gate marks"""
+    if kind in _LEGACY:
+        STATE["events"].append([kind, job])
+    STATE["timeline"].append([kind, job])
+
+
+def _gate_event(name: str) -> "asyncio.Event":
+    return STATE["gate_events"].setdefault(name, asyncio.Event())
+
+
+def signal(name: str) -> None:
+    if name not in STATE["signalled"]:
+        STATE["signalled"].add(name)
+        _ev("signal", name)
+    _gate_event(name).set()
+
+
+async def _gates(job_name: str, attempt: int, phase: str = "execute") -> None:
+    """forced interleavings: `case.gates = [{job, attempt, phase?, signal?, wait?, timeout?}]` — at the start of the given execution of the
+    job (phase execute: its status is RUNNING; phase schedule: it has just been scheduled, FIREABLE) first raise `signal`, then hold the job until `wait` was raised (by another gate or by the failure-manager
+    tracer: `synced:<failed job>` = a recovery finished `_synchronize_workflows`); a wait that times out is logged, not an error"""
+    for g in STATE.get("gates", []):
+        if g["job"] == job_name and g["attempt"] == attempt and g.get("phase", "execute") == phase:
+            if g.get("signal"):
+                signal(g["signal"])
+            if g.get("wait"):
+                try:
+                    await asyncio.wait_for(_gate_event(g["wait"]).wait(), g.get("timeout", 30))
+                except asyncio.TimeoutError:
+                    _ev("gate-timeout", g["wait"])
 
 
 def _lookup(step: str, tag: str, phase: str):
@@ -52,7 +89,7 @@ def _lose(plan_entry: dict, job) -> None:
             if d and os.path.isdir(d):
                 shutil.rmtree(d, ignore_errors=True)
                 STATE["deleted"].append((name, d))
-        STATE["events"].append(["lose", name])
+        _ev("lose", name)
         STATE["ports_done"].pop(name, None)
 
 
@@ -77,7 +114,7 @@ def _replicate(job_name: str) -> None:
             dloc = dm.register_path(STATE["replica_loc"], dst, relpath=srcs[0].relpath)
             dloc.available.set()
             dm.register_relation(srcs[0], dloc)
-            STATE["events"].append(["replica", job_name, dst])
+            _ev("replica", job_name)
 
 
 def _inject(step_name: str, job, phase: str) -> bool:
@@ -109,6 +146,8 @@ def _classes():
         async def execute(self, job):
             step_name = self.step.name
             STATE["attempts"].append((job.name, "execute", time.time()))
+            _ev("start", job.name)
+            await _gates(job.name, sum(1 for n, _, _ in STATE["attempts"] if n == job.name))
             ctx_ = self.step.workflow.context
             reg = {}
             for loc in ctx_.scheduler.get_locations(job.name):
@@ -122,18 +161,19 @@ def _classes():
                 await context.database.update_execution(
                     await context.database.add_execution(self.step.persistent_id, job_token.persistent_id, self.command),
                     {"status": cmd_out.status})
-                STATE["events"].append(["fail", job.name])
+                _ev("fail", job.name)
                 return cmd_out
             out = await super().execute(job)
-            STATE["events"].append(["exec" if out.status == Status.COMPLETED else "fail", job.name])
+            _ev("exec" if out.status == Status.COMPLETED else "fail", job.name)
             return out
 
     class SfvScheduleStep(InjectorFailureScheduleStep):
         async def _set_job_directories(self, connector, locations, job):
             step_name = self.job_prefix
             if _inject(step_name, job, "schedule"):
-                STATE["events"].append(["fail", job.name])
+                _ev("fail", job.name)
                 raise WorkflowExecutionException(f"Injected error into {self.name} step")
+            await _gates(job.name, 1 + sum(1 for n, _ in STATE["dirs"] if n == job.name), "schedule")
             await ScheduleStep._set_job_directories(self, connector, locations, job)
             STATE["dirs"].append((job.name, [job.input_directory, job.output_directory, job.tmp_directory]))
 
@@ -142,14 +182,14 @@ def _classes():
             step_name = self.name.split("/__transfer__/")[0]
             top = any(token is t for t in job.inputs.values())
             if top and _inject(step_name, job, "transfer"):
-                STATE["events"].append(["fail", job.name])
+                _ev("fail", job.name)
                 raise WorkflowExecutionException(f"Injected error into {self.name} step")
             out = await super().transfer(job, token)
             if top:
                 done = STATE["ports_done"].setdefault(job.name, set())
                 done.add(self.name)
                 if len(done) >= len(job.inputs):
-                    STATE["events"].append(["stage", job.name])
+                    _ev("stage", job.name)
                     STATE["ports_done"][job.name] = set()
             return out
 
@@ -226,10 +266,24 @@ def _trace_failure_manager(context) -> None:
         return res
 
     async def _update_request(job_name):
-        await orig_upd(job_name)
+        _ev("claim", job_name)          # before the awaited notify_status(ROLLBACK): the decision is taken here
+        try:
+            await orig_upd(job_name)
+        except BaseException:
+            _ev("claim-refused", job_name)
+            raise
         ev.append(["claim", rid(), job_name])
 
+    orig_sync = fm._synchronize_workflows
+
+    async def _synchronize_workflows(*a, **kw):
+        try:
+            return await orig_sync(*a, **kw)
+        finally:
+            signal("synced:" + str(kw.get("failed_job", a[0] if a else "")))
+
     fm.get_request, fm.is_recovering, fm._update_request = get_request, is_recovering, _update_request
+    fm._synchronize_workflows = _synchronize_workflows
 
 
 async def _file(context, location, content: str) -> dict:
@@ -438,6 +492,7 @@ async def _run(case: dict) -> dict:
     res["deleted"] = STATE["deleted"]
     res["avail"] = STATE["avail"]
     res["events"] = STATE["events"]
+    res["timeline"] = STATE["timeline"]
     res["fm_events"] = STATE.get("fm_events", [])
     res["plan_left"] = [p for p in STATE["plan"] if p.get("count", 1) > 0]
     return res
@@ -449,6 +504,7 @@ def run_case(case: dict) -> dict:
     logging.getLogger("streamflow").setLevel(logging.CRITICAL)
     logging.disable(logging.CRITICAL)
     _reset(case.get("plan", []))
+    STATE["gates"] = [dict(g) for g in case.get("gates", [])]
     root = case.get("root") or tempfile.mkdtemp(prefix="sfv-recov-")
     case = dict(case, root=root)
     try:
